@@ -3,6 +3,8 @@ import MW.Inv.WorldStake
 import MW.Inv.WorldRecover
 import MW.Inv.Demo
 import MW.Staking.Interface
+import MW.Inv.WorldFees
+import MW.Inv.Demo
 /-!
 # C11 — Protocol fee accounting on rewards
 -/
@@ -179,5 +181,45 @@ theorem messages_are_the_modelled_ones :
     ∧ (∀ m : MW.Staking.ExecMsg, MW.Interface.execTag m ∈ MW.Interface.names MW.Generated.Interface.staking_execute)
     ∧ MW.Generated.Interface.staking_entry_points = ["execute", "instantiate", "migrate", "query", "reply", "sudo"] :=
   ⟨MW.Interface.staking_execute_eq, MW.Interface.staking_execute_covered.2, MW.Interface.staking_entry_points_eq⟩
+
+open MW.Chain in
+/-- **the withdrawable fee balance, every history** (any interleaving of transactions by anybody, ibc-hooks deliveries,
+acknowledgements, timeouts, stray callbacks, rolled-back transactions; no condition on the environment): the fee balance
+the State query reports, plus everything FeeWithdraw has ever sent, equals everything that ever accrued — the protocol
+fee `floor(rate × reward / 100000)` of each committed reward received while no treasury was configured, and the ownerless
+stake swept by a stake when no LST existed.  Nothing else moves it: not ResumeContract, not UpdateConfig, not a reply or
+a callback -/
+theorem C11_fee_ledger {env : Env} {info : Info} {msg : InstantiateMsg} {c0 : CState} {out : List SubMsg}
+    (hi : instantiate env info msg = .ok (c0, out)) (self pfx : String) (t hgt : Nat) (evs : List Event) :
+    let r := runF (bootWorld c0 self pfx t hgt) {} evs
+    r.1.c.st.totalFees + r.2.withdrawn = r.2.accrued :=
+  world_history_finv hi self pfx t hgt evs
+
+open MW.Chain in
+/-- "FeeWithdraw can send at most the accrued amount": along every history the sum of all fee withdrawals never
+exceeds the sum of everything accrued -/
+theorem C11_withdrawn_le_accrued {env : Env} {info : Info} {msg : InstantiateMsg} {c0 : CState} {out : List SubMsg}
+    (hi : instantiate env info msg = .ok (c0, out)) (self pfx : String) (t hgt : Nat) (evs : List Event) :
+    (runF (bootWorld c0 self pfx t hgt) {} evs).2.withdrawn ≤ (runF (bootWorld c0 self pfx t hgt) {} evs).2.accrued := by
+  have := C11_fee_ledger hi self pfx t hgt evs
+  simp only at this
+  omega
+
+/-- the message-level statement behind it (every message, every sender) -/
+theorem fee_balance_moves_only_by (s s' : CState) (env : Env) (info : Info) (m : ExecMsg) (out : List SubMsg)
+    (h : execute s env info m = .ok (s', out)) :
+    s'.st.totalFees + MW.Chain.feeOut m = s.st.totalFees + MW.Chain.feeIn s info m := MW.Chain.execute_fees h
+
+/-! non-vacuity (tests on the demo history): the reward of 1000 at 10 % with no treasury accrues 100; after a treasury
+is configured a FeeWithdraw of 60 commits: accrued 100, withdrawn 60, balance 40; a second withdrawal of 41 is refused -/
+section Demo
+open MW.Chain MW.Chain.Demo
+def demoFees : List Event :=
+  demoEvents ++
+  [ .exec demoAdmin [] (.updateConfig none none (some { fee := 10000, treasury := some demoUser }) none none) {} (some 0),
+    .exec demoAdmin [] (.feeWithdraw 60) {} (some 0),
+    .exec demoAdmin [] (.feeWithdraw 41) {} (some 0) ]
+#guard (demoBoot.map fun w => let r := runF w {} demoFees; (r.2.accrued, r.2.withdrawn, r.1.c.st.totalFees)) == some (100, 60, 40)
+end Demo
 
 end MW.Props.C11
